@@ -422,7 +422,19 @@ func genC16Chain(rt *rapid.T, exclReReg bool, rec *Recorder) *c16Chain {
 				n = max(r+1, min(n, e, maxN))
 			}
 			want := rapid.IntRange(0, 9).Draw(rt, ll+"want") < 7 || (j == 0 && rapid.Bool().Draw(rt, ll+"want0")) || outsideOnly
-			spec, cut := genLogForInfo(rt, ll, &t.def, want)
+			spec, logInfo := genLogForInfo(rt, ll, &t.def, want)
+			cut := strings.SplitN(logInfo, "|", 2)[0]
+			if t.valid {
+				for _, sh := range strings.Split(logInfo, "|")[1:] {
+					verdict, _ := refMatch(&t.def, specAsLog(spec))
+					cutLabels[sh] = true
+					if verdict {
+						cutLabels[sh+":matching"] = true
+					} else {
+						cutLabels[sh+":near-miss"] = true
+					}
+				}
+			}
 			if cut != "" && t.valid {
 				verdict, _ := refMatch(&t.def, specAsLog(spec))
 				cutLabels["chain:log-data-ends-inside-referenced-static-word"] = true
